@@ -64,7 +64,11 @@ def random_tree(rng, kind, leaf_shapes_dtypes):
         if dt == "bool":
             return jnp.asarray(rng.integers(0, 2, size=sh).astype(bool))
         if dt.startswith("float"):
-            return jnp.asarray((rng.integers(-8, 8, size=sh) / 4.0).astype(dt))
+            a = (rng.integers(-8, 8, size=sh) / 4.0).astype(dt)
+            if a.size and rng.random() < 0.4:      # infinite entries (BinPack's half spaces carry them): still plain data
+                m = rng.random(size=a.shape) < 0.3
+                a = np.where(m, np.where(rng.random(size=a.shape) < 0.5, np.inf, -np.inf), a).astype(dt)
+            return jnp.asarray(a)
         return jnp.asarray(rng.integers(0, 50, size=sh).astype(dt))
 
     ls = [leaf(sd) for sd in leaf_shapes_dtypes]
